@@ -597,6 +597,7 @@ package sod
 //@ serves C01 C12 C18
 //@ requires s != nil
 //@ ensures [C18 filename] result == uuid + s.Extension + ite(s.Compress, ".gz", "")
+//@ assumed-ensures [C18 filename.is-object-path] imp(s.db != nil && s.object != nil, cdirf(s.db.root, itemOf(dyntype(s.object))) + "/" + result == opathf(cdirf(s.db.root, itemOf(dyntype(s.object))), uuid, s.Extension, s.Compress))
 //@ pure
 //@ allocates Elem[interface{}]
 
@@ -604,6 +605,7 @@ package sod
 //@ serves C01 C12 C18
 //@ requires s != nil && o != nil
 //@ ensures [C18 filename] result == o.uuid + s.Extension + ite(s.Compress, ".gz", "")
+//@ assumed-ensures [C18 filename.is-object-path] imp(s.db != nil, cdirf(s.db.root, itemOf(dyntype(o))) + "/" + result == opathf(cdirf(s.db.root, itemOf(dyntype(o))), o.uuid, s.Extension, s.Compress))
 //@ pure
 //@ allocates Elem[interface{}]
 
@@ -1515,7 +1517,7 @@ package sod
 //@ func (*DB).flushAll
 //@ serves C10 C08 C09 C04 C05
 //@ requires [wf] wfDB(db) && of != nil
-//@ requires [pending-loaded] imp(has(db.asyncw.m, stypeOf(dyntype(of))) && !forallk(u, string, !has(db.asyncw.m[stypeOf(dyntype(of))].m, u)), has(db.schemas, stypeOf(dyntype(of))) && db.schemas[stypeOf(dyntype(of))].coherent)
+//@ requires [pending-loaded] imp(has(db.asyncw.m, stypeOf(dyntype(of))) && !forallk(u, string, !has(db.asyncw.m[stypeOf(dyntype(of))].m, u)), has(db.schemas, stypeOf(dyntype(of))))
 //@ requires [C08 locked] H == 2
 //@ requires [C09 lock-free] SL == 0 && HS == 0 && HM == 0
 //@ let T string := stypeOf(dyntype(of))
@@ -1546,6 +1548,7 @@ package sod
 //@ func (*DB).flushAllAndCommit
 //@ serves C10 C04 C08 C09
 //@ requires [wf] wfDB(db) && of != nil
+//@ requires [pending-loaded] imp(has(db.asyncw.m, stypeOf(dyntype(of))) && !forallk(u, string, !has(db.asyncw.m[stypeOf(dyntype(of))].m, u)), has(db.schemas, stypeOf(dyntype(of))))
 //@ requires [C08 locked] H == 2
 //@ requires [C09 lock-free] SL == 0 && HS == 0 && HM == 0
 //@ let T string := stypeOf(dyntype(of))
@@ -1553,6 +1556,7 @@ package sod
 //@ ensures [C10 fac.done] imp(last == nil && old(has(db.schemas, T)), forallk(u, string, !pend(db, db.schemas[T], u)) && committed(db, db.schemas[T]))
 //@ ensures [C01 fac.wf] wfDB(db)
 //@ ensures [fac.table] forallk(t, string, imp(has(db.schemas, t), t == T))
+//@ ensures [fac.keeps] imp(old(has(db.schemas, T)), has(db.schemas, T) && db.schemas[T] == old(db.schemas[T]))
 //@ modifies Ghost.FSk, Ghost.FSc, MapDom[string,Object], MapCard[string,Object], Async.routineStarted, MapDom[string,*Schema]@db.schemas, MapVal[string,*Schema]@db.schemas, MapCard[string,*Schema]@db.schemas
 //@ allocates Async.Enable, Async.Threshold, Async.Timeout, Elem[*indexedField], Elem[string], Elem[uint8], MapCard[string,*fieldIndex], MapCard[string,uint64], MapCard[uint64,*indexedField], MapCard[uint64,string], MapDom[string,*fieldIndex], MapDom[string,uint64], MapDom[uint64,*indexedField], MapDom[uint64,string], MapVal[string,*fieldIndex], MapVal[string,uint64], MapVal[uint64,*indexedField], MapVal[uint64,string], Schema.AsyncWrites, Schema.Cache, Schema.Compress, Schema.Extension, Schema.Fields, Schema.ObjectIndex, Schema.coherent, Schema.db, Schema.object, Schema.transformers, fieldIndex.Cast, fieldIndex.Constraints.Index, fieldIndex.Constraints.Lower, fieldIndex.Constraints.Unique, fieldIndex.Constraints.Upper, fieldIndex.Index, fieldIndex.Name, fieldIndex.nameSplit, fieldIndex.objectIds, fieldIndex.pos, indexedField.ObjectId, indexedField.Value, objIndex.Fields, objIndex.ObjectIds, objIndex.i, objIndex.otype, objIndex.uuids, objIndex.ver
 //@ allocates Elem[interface{}]
@@ -1703,15 +1707,16 @@ package sod
 //@ func (*DB).startAsyncWritesRoutine$1
 //@ serves C08 C09 C10 C17
 //@ requires [wf] wfDB(*db) && (*db).ctx != nil && *s != nil && allocated(*s) && (*s).object != nil && imp((*s).AsyncWrites != nil, allocated((*s).AsyncWrites))
+//@ requires [loaded] has((*db).schemas, stypeOf(dyntype((*s).object)))
 //@ requires [C09 lock-free] lockFree()
 //@ assume [single-collection] forallk(t, string, imp(has((*db).schemas, t), t == stypeOf(dyntype((*s).object))))
 //@ may_panic "a storage error during a background flush panics (library design: the error has no caller to return to)"
 //@ skip overflow "slept grows by one poll step (100 ms) per iteration: int64 nanoseconds overflow after 292 years"
 //@ ensures [C10 flusher-runs-until-cancelled] CTX != 0
 //@ loop 1 invariant [frame] preserved(Cell[*DB], Cell[*Schema], Cell[time.Duration], Schema.object, Schema.AsyncWrites)
-//@ loop 1 invariant [state] lockFree() && wfDB(*db) && *s != nil && allocated(*s) && (*s).object != nil && imp((*s).AsyncWrites != nil, allocated((*s).AsyncWrites)) && forallk(t, string, imp(has((*db).schemas, t), t == stypeOf(dyntype((*s).object))))
+//@ loop 1 invariant [state] lockFree() && wfDB(*db) && *s != nil && allocated(*s) && (*s).object != nil && imp((*s).AsyncWrites != nil, allocated((*s).AsyncWrites)) && has((*db).schemas, stypeOf(dyntype((*s).object))) && forallk(t, string, imp(has((*db).schemas, t), t == stypeOf(dyntype((*s).object))))
 //@ loop 2 invariant [frame] preserved(Cell[*DB], Cell[*Schema], Cell[time.Duration], Schema.object, Schema.AsyncWrites)
-//@ loop 2 invariant [state] lockFree() && wfDB(*db) && *s != nil && allocated(*s) && (*s).object != nil && imp((*s).AsyncWrites != nil, allocated((*s).AsyncWrites)) && forallk(t, string, imp(has((*db).schemas, t), t == stypeOf(dyntype((*s).object))))
+//@ loop 2 invariant [state] has((*db).schemas, stypeOf(dyntype((*s).object))) && lockFree() && wfDB(*db) && *s != nil && allocated(*s) && (*s).object != nil && imp((*s).AsyncWrites != nil, allocated((*s).AsyncWrites)) && forallk(t, string, imp(has((*db).schemas, t), t == stypeOf(dyntype((*s).object))))
 //@ modifies Ghost.CTX, Ghost.ACQ_H, Ghost.FSk, Ghost.FSc, MapDom[string,Object], MapCard[string,Object], Async.routineStarted, MapDom[string,*Schema], MapVal[string,*Schema], MapCard[string,*Schema]
 //@ allocates Async.Enable, Async.Threshold, Async.Timeout, Elem[*indexedField], Elem[string], Elem[uint8], MapCard[string,*fieldIndex], MapCard[string,uint64], MapCard[uint64,*indexedField], MapCard[uint64,string], MapDom[string,*fieldIndex], MapDom[string,uint64], MapDom[uint64,*indexedField], MapDom[uint64,string], MapVal[string,*fieldIndex], MapVal[string,uint64], MapVal[uint64,*indexedField], MapVal[uint64,string], Schema.AsyncWrites, Schema.Cache, Schema.Compress, Schema.Extension, Schema.Fields, Schema.ObjectIndex, Schema.coherent, Schema.db, Schema.object, Schema.transformers, fieldIndex.Cast, fieldIndex.Constraints.Index, fieldIndex.Constraints.Lower, fieldIndex.Constraints.Unique, fieldIndex.Constraints.Upper, fieldIndex.Index, fieldIndex.Name, fieldIndex.nameSplit, fieldIndex.objectIds, fieldIndex.pos, indexedField.ObjectId, indexedField.Value, objIndex.Fields, objIndex.ObjectIds, objIndex.i, objIndex.otype, objIndex.uuids, objIndex.ver
 //@ allocates Elem[interface{}]
@@ -2150,13 +2155,13 @@ package sod
 //@ requires [wf] wfDB(db) && of != nil
 //@ requires [C09 lock-free] lockFree()
 //@ let T string := stypeOf(dyntype(of))
-//@ assume [pending-loaded] imp(has(db.asyncw.m, stypeOf(dyntype(of))) && !forallk(u, string, !has(db.asyncw.m[stypeOf(dyntype(of))].m, u)), has(db.schemas, stypeOf(dyntype(of))) && db.schemas[stypeOf(dyntype(of))].coherent)
+//@ assume [pending-loaded] imp(has(db.asyncw.m, stypeOf(dyntype(of))) && !forallk(u, string, !has(db.asyncw.m[stypeOf(dyntype(of))].m, u)), has(db.schemas, stypeOf(dyntype(of))))
 //@ assume [single-collection] forallk(t, string, imp(has(db.schemas, t), t == T))
 //@ ensures [C08 one-section] ACQ_H == old(ACQ_H) + 1 && lockFree()
 //@ ensures [C10 FlushAll.done] imp(err == nil && has(db.schemas, T), forallk(u, string, !pend(db, db.schemas[T], u)))
 //@ ensures [C10 FlushAll.effect] imp(has(db.schemas, T), flushedColl(db, db.schemas[T]))
 //@ ensures [C01 FlushAll.wf] wfDB(db)
-//@ modifies Ghost.ACQ_H, Ghost.FSk, Ghost.FSc, MapDom[string,Object], MapCard[string,Object], Async.routineStarted
+//@ modifies Ghost.ACQ_H, Ghost.FSk, Ghost.FSc, MapDom[string,Object], MapCard[string,Object], Async.routineStarted, MapDom[string,*Schema]@db.schemas, MapVal[string,*Schema]@db.schemas, MapCard[string,*Schema]@db.schemas
 //@ allocates Async.Enable, Async.Threshold, Async.Timeout, Elem[*indexedField], Elem[interface{}], Elem[string], Elem[uint8], MapCard[string,*Schema], MapCard[string,*fieldIndex], MapCard[string,uint64], MapCard[uint64,*indexedField], MapCard[uint64,string], MapDom[string,*Schema], MapDom[string,*fieldIndex], MapDom[string,uint64], MapDom[uint64,*indexedField], MapDom[uint64,string], MapVal[string,*Schema], MapVal[string,*fieldIndex], MapVal[string,uint64], MapVal[uint64,*indexedField], MapVal[uint64,string], Schema.AsyncWrites, Schema.Cache, Schema.Compress, Schema.Extension, Schema.Fields, Schema.ObjectIndex, Schema.coherent, Schema.db, Schema.object, Schema.transformers, fieldIndex.Cast, fieldIndex.Constraints.Index, fieldIndex.Constraints.Lower, fieldIndex.Constraints.Unique, fieldIndex.Constraints.Upper, fieldIndex.Index, fieldIndex.Name, fieldIndex.nameSplit, fieldIndex.objectIds, fieldIndex.pos, indexedField.ObjectId, indexedField.Value, objIndex.Fields, objIndex.ObjectIds, objIndex.i, objIndex.otype, objIndex.uuids, objIndex.ver
 
 //@ func (*DB).FlushAllAndCommit
@@ -2164,6 +2169,7 @@ package sod
 //@ requires [wf] wfDB(db) && of != nil
 //@ requires [C09 lock-free] lockFree()
 //@ let T string := stypeOf(dyntype(of))
+//@ assume [pending-loaded] imp(has(db.asyncw.m, stypeOf(dyntype(of))) && !forallk(u, string, !has(db.asyncw.m[stypeOf(dyntype(of))].m, u)), has(db.schemas, stypeOf(dyntype(of))))
 //@ assume [single-collection] forallk(t, string, imp(has(db.schemas, t), t == T))
 //@ ensures [C08 one-section] ACQ_H == old(ACQ_H) + 1 && lockFree()
 //@ ensures [C10 C04 FlushAllAndCommit.done] imp(last == nil && old(has(db.schemas, T)), forallk(u, string, !pend(db, db.schemas[T], u)) && committed(db, db.schemas[T]))
@@ -2184,7 +2190,7 @@ package sod
 //@ requires [C09 lock-free] lockFree()
 //@ let T string := stypeOf(dyntype(of))
 //@ assume [single-collection] forallk(t, string, imp(has(db.schemas, t), t == T))
-//@ assume [pending-loaded] imp(has(db.asyncw.m, stypeOf(dyntype(of))) && !forallk(u, string, !has(db.asyncw.m[stypeOf(dyntype(of))].m, u)), has(db.schemas, stypeOf(dyntype(of))) && db.schemas[stypeOf(dyntype(of))].coherent)
+//@ assume [pending-loaded] imp(has(db.asyncw.m, stypeOf(dyntype(of))) && !forallk(u, string, !has(db.asyncw.m[stypeOf(dyntype(of))].m, u)), has(db.schemas, stypeOf(dyntype(of))))
 //@ assume [uuid-shape] !uuidShaped("")
 //@ ensures [C08 one-section] ACQ_H == old(ACQ_H) + 1 && lockFree()
 //@ ensures [C11 Repair.object-files-untouched] imp(old(has(db.schemas, T)), forallk(p, string, imp(p != spath(db, db.schemas[T]) && forallk(u, string, imp(old(pend(db, db.schemas[T], u)), p != opath(db, db.schemas[T], u))), FSk[p] == old(FSk[p]) && FSc[p] == old(FSc[p]))))
@@ -2247,7 +2253,9 @@ package sod
 //@ func (*fieldIndex).UnmarshalJSON
 //@ serves C19 C04
 //@ requires i != nil
-//@ loop 1 invariant [locals] i != nil
+//@ loop 1 snap S1
+//@ loop 1 invariant [bounds] (-1 <= rangeindex && rangeindex < len(i.Index)) || (rangeindex == -1 && len(i.Index) == 0)
+//@ loop 1 invariant [locals] i != nil && i.objectIds != nil && since(S1, preserved(fieldIndex.Index, fieldIndex.objectIds, fieldIndex.Cast, Elem[*indexedField]))
 
 //@ func (*objIndex).UnmarshalJSON
 //@ serves C19 C04
